@@ -22,6 +22,7 @@ PROPS = {
                              "the threaded writer only queues data calls: wrong-id data calls are judged by C06 (nothing reaches the file), not by their return code",
                              "gaps are bounded to 200000 samples and sample counts to 100000 so that valid requests stay cheap; huge allocations may fail with NOT_ENOUGH_MEMORY (accepted)"]),
     "C04": dict(sources=["props/C04.cpp"], jls=True, level="fault_enumeration", enumerate=True, tiers=T(60, 1200, qbudget=300, tbudget=1800),
+                fuzz=dict(workers=4, quick=0, thorough=600, max_len=2048),
                 enum_timeout={"quick": 600, "thorough": 2400}, worker_variants=["fast", "fast", "fast", "asan"],
                 assumptions=["'certain' class: <= 3 flipped bits or one burst <= 32 bits per protected region; zeroed/overwritten ranges are also judged (a 2^-32 CRC collision would be reported as a violation and needs manual triage)",
                              "an open that wrote to the file (repair) may expose a prefix of the baseline; otherwise every successful result must equal the baseline's",
@@ -77,9 +78,11 @@ PROPS = {
                              "24-bit types have no default table in this commit: zero fields there are only held to the minimums",
                              "SMT over the full 2^128 domain is not attempted (different technique family); sampled instead"]),
     "C08": dict(sources=["props/C08.cpp"], jls=True, enumerate=True, tiers=T(3000, 40000),
+                fuzz=dict(workers=4, quick=0, thorough=300, max_len=1024),
                 assumptions=["'genuinely does not fit' is read as: no contiguous free region of size+4 bytes; the implementation's 8 bytes of marker/disambiguation slack are accepted either way (must succeed with size+12 free)",
                              "usable capacity after emptying = capacity-12"]),
     "C18": dict(sources=["props/C18.cpp", "props/C18_sw.c"], jls=True, enumerate=True, tiers=T(3000, 40000),
+                fuzz=dict(workers=4, quick=0, thorough=300, max_len=256),
                 assumptions=["bit-serial reference implements the standard CRC-32C definition (check value 0xE3069283 asserted)",
                              "crc32c_arm_neon.c cannot be compiled on this x86 sandbox: not covered"]),
     "C20": dict(sources=["props/C20.cpp"], jls=True, tiers=T(4000, 60000),
